@@ -181,6 +181,69 @@ let pc_scenario a =
   let (_, outs) = PcSys.prun PcSys.always_ok PcSys.pst0 (L.map pc_op a) in
   S.concat " " (L.map pc_out outs)
 
+(* ---- NodeInfo codec ---------------------------------------------------------------------- *)
+let addrs_str l = if l = [] then "-" else S.concat "," (L.map hex l)
+let parse_addrs s = if s = "-" || s = "" then [] else L.map unhex (split ',' s)
+
+let ni_to_str (n : NodeInfo.node_info) =
+  let peers = if n.ni_peers = [] then "-" else
+      S.concat "/" (L.map (fun (p : NodeInfo.peer_info) ->
+          (match p.pi_node with Some i -> hex i | None -> "-") ^ ":" ^ addrs_str p.pi_addrs) n.ni_peers) in
+  let claims = if n.ni_claims = [] then "-" else
+      S.concat "," (L.map (fun (b, p) -> Printf.sprintf "%s/%d" (hex b) (int_of_n p)) n.ni_claims) in
+  Printf.sprintf "node=%s;peers=%s;claims=%s;to=%s;addrs=%s" (hex n.ni_node) peers claims
+    (match n.ni_timeout with Some t -> string_of_int (int_of_n t) | None -> "-") (addrs_str n.ni_addrs)
+
+let split_once c s = match S.index_opt s c with
+  | Some i -> (S.sub s 0 i, S.sub s (i + 1) (S.length s - i - 1))
+  | None -> (s, "")
+
+let ni_from_str s : NodeInfo.node_info =
+  let node = ref [] and peers = ref [] and claims = ref [] and tmo = ref None and addrs = ref [] in
+  L.iter (fun part ->
+      let (k, v) = split_once '=' part in
+      match k with
+      | "node" -> node := unhex v
+      | "peers" -> if v <> "-" then peers := L.map (fun p ->
+          let (id, a) = split_once ':' p in
+          { NodeInfo.pi_node = (if id = "-" then None else Some (unhex id)); pi_addrs = parse_addrs a }) (split '/' v)
+      | "claims" -> if v <> "-" then claims := L.map (fun c -> let (b, p) = split_once '/' c in (unhex b, n_of_int (int_of_string p))) (split ',' v)
+      | "to" -> if v <> "-" then tmo := Some (n_of_int (int_of_string v))
+      | "addrs" -> addrs := parse_addrs v
+      | _ -> failwith "ni field") (split ';' s);
+  { NodeInfo.ni_node = !node; ni_peers = !peers; ni_claims = !claims; ni_timeout = !tmo; ni_addrs = !addrs }
+
+let ni_op op a =
+  let arg i = L.nth a i in
+  match op with
+  | "ni_enc" -> "ok " ^ hex (NodeInfo.ni_encode (ni_from_str (arg 0)))
+  | "ni_dec" -> (match NodeInfo.ni_decode (unhex (arg 0)) with Base.Ok n -> "ok " ^ ni_to_str n | _ -> "err")
+  | _ ->
+    let e = NodeInfo.ni_encode (ni_from_str (arg 0)) in
+    (match NodeInfo.ni_decode (e @ unhex (arg 1)) with
+     | Base.Ok n -> Printf.sprintf "ok %s %s" (hex e) (ni_to_str n)
+     | _ -> "err " ^ hex e)
+
+(* ---- handshake / rotation codecs --------------------------------------------------------- *)
+let algos_str (l, pl) =
+  (if pl then "p" else "-") ^ "|" ^
+  (if l = [] then "-" else S.concat "," (L.map (fun (a, sp) -> Printf.sprintf "%d:%08x" (int_of_n a) (int_of_n sp)) l))
+
+let im_parse_m a =
+  let arg i = L.nth a i in
+  let msg = unhex (arg 0) in
+  let signed_len = int_of_string (arg 1) in
+  let sigb = unhex (arg 2) in
+  let lookup_ok = arg 3 = "1" in
+  let lookup _ _ = if lookup_ok then Some (n_of_int 1) else None in
+  let verify _ prefix sg = (L.length prefix = signed_len) && sg = sigb in
+  match InitMsg.read_from lookup verify msg with
+  | Base.Ok (InitMsg.PPing (h, e, al), _) -> Printf.sprintf "ok ping %s %s %s" (hex h) (hex e) (algos_str al)
+  | Base.Ok (InitMsg.PPong (h, e, al, p), _) -> Printf.sprintf "ok pong %s %s %s %s" (hex h) (hex e) (algos_str al) (hex p)
+  | Base.Ok (InitMsg.PPeng (h, p), _) -> Printf.sprintf "ok peng %s %s" (hex h) (hex p)
+  | Base.Err c -> (match int_of_n c with 1 -> "err parse" | 2 -> "err crypto" | _ -> "err init")
+  | Base.Panic _ -> "panic"
+
 let run (op : string) (a : string list) : string option =
   let arg i = L.nth a i in
   match op with
@@ -191,6 +254,13 @@ let run (op : string) (a : string list) : string option =
   | "core" -> Some (core_scenario a)
   | "table" -> Some (table_scenario a)
   | "pc" -> Some (pc_scenario a)
+  | "ni_enc" | "ni_dec" | "ni_rt" -> Some (ni_op op a)
+  | "im_parse_m" -> Some (im_parse_m a)
+  | "rot_dec" -> Some (match Conn.rot_decode (unhex (arg 0)) with
+      | Some m -> Printf.sprintf "ok %s %s %s" (dec_of_n m.Conn.rm_id) (hex m.Conn.rm_propose) (match m.Conn.rm_confirm with Some c -> hex c | None -> "none")
+      | None -> "err")
+  | "rot_enc" -> Some ("ok " ^ hex (Conn.rot_encode { Conn.rm_id = n_of_dec (arg 0); rm_propose = unhex (arg 1);
+                                                    rm_confirm = (if arg 2 = "none" then None else Some (unhex (arg 2))) }))
   | "beacon_enc" | "beacon_dec" | "beacon_rt" -> Some (beacon_op op a)
   | "keyrt" ->
     let key = unhex (arg 0) in
